@@ -164,4 +164,29 @@ PROPS['C20'] = {
     'assumptions': ['inside the advertised gym spaces = the model space predicate (C15) on the returned representation; gym Box.contains is modelled, checked at run time on every returned array'],
 }
 
+REPRM = 'harness.corr_repr'
+REPR_QUICK = [(REPRM, 'fam_repr_objects', 500, 16), (REPRM, 'fam_repr_states', 6000, 16), (ENVM, 'fam_gym_shipped', 84, 16)]
+REPR_THOROUGH = [(REPRM, 'fam_repr_objects', 0, 16), (REPRM, 'fam_repr_states', 300000, 16), (ENVM, 'fam_gym_shipped', 21 * 100, 16)]
+
+PROPS['C15'] = {
+    'targets': ['GridVerse.Props.C15'],
+    'theorem_files': [('GridVerse/Props/C15.lean', 'C15_')] + AG('Objects'),
+    'audit_prefix': 'C15_',
+    'families': {'quick': REPR_QUICK, 'thorough': REPR_THOROUGH},
+    'oracle_cases': {'quick': 4800, 'thorough': 200000},
+    'trusted_base': ['numpy array construction / dtypes and Space.contains are exercised, not modelled, beyond shape-and-bounds (the model predicate containsState/containsObs)', 'gym Box.contains (third party)'],
+    'assumptions': ['member states have rectangular grids (Python derives the shape from the lists)', 'state grids have at least 2 rows and 2 columns (one row/column divides by zero)'],
+}
+
+PROPS['C16'] = {
+    'targets': ['GridVerse.Props.C16'],
+    'theorem_files': [('GridVerse/Props/C16.lean', 'C16_'), ('GridVerse/Props/C15.lean', 'C15_')] + AG('Objects'),
+    'audit_prefix': 'C16_',
+    'families': {'quick': REPR_QUICK[:2], 'thorough': REPR_THOROUGH[:2]},
+    'oracle_cases': {'quick': 4800, 'thorough': 200000},
+    'trusted_base': ['float division (2p-n+1)/(n-1) is injective in p at grid sizes (the model compares exact fractions)'],
+    'assumptions': ['equality is Python equality of grid objects (type, status, colour)'],
+    'partial': 'proved: per-object injectivity (3 encodings), positional grid array, agent marker, agent-array injectivity, channel disjointness, compact density and order-independence. The assembled statement "two member states have equal dictionaries iff they are equal" is checked by the oracle on pairs, not yet stated as one Lean theorem.',
+}
+
 NOT_CLAIMED = {}
